@@ -32,7 +32,8 @@ ASSUMPTIONS = [
     "range / fixed-point-1 tolerance is base + 4*eps_lane*beta (base 1e-9 f64, 1e-5 f32): the projection has slope "
     "up to beta, so representation error of x and eta in the lane dtype is amplified by beta (observed: float32, "
     "beta=1e6, eta=0.999999 gives f(1)=1.003); for beta*eps > 1e-2 the range claim is therefore only checked loosely",
-    "monotonicity slack 1e-12 (f64) / 1e-6 (f32) on outputs sorted by input",
+    "monotonicity slack 1e-12 (f64) / 5e-6 (f32: XLA's float32 tanh is accurate to a few ulp, the quotient of two "
+    "such sums can dip by ~1e-6) on outputs sorted by input",
     "'away from the threshold' at beta=inf means |x-eta| > 1e-6",
     "'finite gradients' is read as d/d(design array) (the gradient the double-where guards protect); d/dbeta is not "
     "claimed; finite beta is limited to [1e-30, 1e30]",
@@ -231,7 +232,7 @@ def tanh_body(ctx, case):
 
     order = np.argsort(x64.ravel(), kind="stable")
     dy = np.diff(y.ravel()[order])
-    slack = ctx.tol(1e-12, 1e-6)
+    slack = ctx.tol(1e-12, 5e-6)
     k = int(np.argmin(dy))
     ctx.metric("monotone_dip", max(-dy.min(), 0.0))
     ctx.check(dy.min() >= -slack, f"projection decreases: f({x64.ravel()[order][k]!r}) > f({x64.ravel()[order][k + 1]!r})"
